@@ -34,6 +34,17 @@ import (
 // query of the filter product is answered by the real Server.handleQuery (pgproto3 backend over a
 // buffer) and compared with the same filters applied directly to the generator's own record list.
 //
+// Family F3 varies what the storage tells about each segment object besides its bytes: whether a
+// time-index sidecar exists for it (time statistics present / absent, per segment) and which
+// LastModified the listing reports for it (absent -> zero time.Time in the SegmentRef; earlier than
+// every lower time bound of the queries; later than every record) — the real s3Lister copies
+// ListObjectsV2 LastModified into SegmentRef.LastModified, the real ManifestBuilder writes it as a
+// string that the manifest lister parses back. Record timestamps are producer-assigned, so they lie
+// on both sides of the bounds whatever the upload time is. F3 timestamps are expressed in hours
+// relative to a reference instant T0 taken at the start of the run, because its queries include
+// LAST <n>h (the server compares with its own clock): every timestamp is at least 6 h away from both
+// ends of every LAST window, and the run refuses to judge after 1 h.
+//
 // Wiring: discovery.New / decoder.New (real, AWS SDK -> loopback endpoint) are wrapped in a
 // memoising Lister / Decoder that calls the real object once per (segment set, variant) — the
 // bucket does not change while the queries of one set run — so that the query product costs no
@@ -53,11 +64,67 @@ type c36SegSpec struct {
 	Offs       []int64 `json:"offs"`
 	TS         []int64 `json:"ts"`
 	Incomplete string  `json:"incomplete,omitempty"` // "", "no-index", "no-footer"
+	// family F3 (storage attributes of the segment object):
+	NoStats bool   `json:"nostats,omitempty"` // no time-index sidecar exists for this segment
+	LM      string `json:"lm,omitempty"`      // LastModified of the object in the listing: "" (2024-01-01) | "zero" (absent) | "early" | "late"
+	lmAbs   string // bound form of LM handed to the fake S3
 }
 
+// A set with Rel=true gives its timestamps in hours relative to the reference instant T0 of the run
+// (always negative: the records lie in the past); bind turns it into absolute milliseconds. Only the
+// relative form is written to replays and samples.
 type c36Set struct {
 	Segs  []c36SegSpec `json:"segs"`
 	Label string       `json:"label"`
+	Rel   bool         `json:"rel,omitempty"`
+}
+
+const c36HourMs = int64(3600 * 1000)
+
+// relative positions (hours) used by family F3
+const (
+	c36RelBound   = -24 // the _ts bound of the F3 queries
+	c36RelLMEarly = -72 // LastModified "early": before every F3 lower time bound (T0-30h, T0-24h, T0-18h)
+	c36RelLMLate  = -1  // LastModified "late": after every record and every bound
+)
+
+var c36RelTS = []int64{-36, -24, -12} // record timestamps of F3: below / at / above the _ts bound; 6 h away from both LAST edges
+var c36RelLast = []int{18, 30}        // LAST <n>h windows of F3
+
+func c36ISO(ms int64) string { return time.UnixMilli(ms).UTC().Format("2006-01-02T15:04:05.000Z") }
+
+// bind returns the set with absolute timestamps (ms) and the LastModified strings for the fake S3.
+func (set c36Set) bind(t0 int64) c36Set {
+	if !set.Rel {
+		return set
+	}
+	out := c36Set{Label: set.Label}
+	for _, sg := range set.Segs {
+		b := sg
+		b.TS = make([]int64, len(sg.TS))
+		for i, h := range sg.TS {
+			b.TS[i] = t0 + h*c36HourMs
+		}
+		switch sg.LM {
+		case "zero":
+			b.lmAbs = "-"
+		case "early":
+			b.lmAbs = c36ISO(t0 + c36RelLMEarly*c36HourMs)
+		case "late":
+			b.lmAbs = c36ISO(t0 + c36RelLMLate*c36HourMs)
+		}
+		out.Segs = append(out.Segs, b)
+	}
+	return out
+}
+
+func (set c36Set) allNoStats() bool {
+	for _, sg := range set.Segs {
+		if !sg.NoStats {
+			return false
+		}
+	}
+	return true
 }
 
 type c36Row struct {
@@ -101,9 +168,9 @@ func c36Load(s3 *c36S3, set c36Set) {
 		if sg.Incomplete == "no-footer" {
 			copy(body[len(body)-4:], "\x00\x00\x00\x00")
 		}
-		s3.Put(sg.segKey(), body)
+		s3.PutMod(sg.segKey(), body, sg.lmAbs)
 		if sg.Incomplete != "no-index" {
-			s3.Put(c36SegmentKey(c36NS, c36Topic, int(sg.P), sg.Offs[0], "index"), index)
+			s3.PutMod(c36SegmentKey(c36NS, c36Topic, int(sg.P), sg.Offs[0], "index"), index, sg.lmAbs)
 		}
 	}
 	// decoys: other topics (one a name extension of the queried topic) sharing partition and offsets
@@ -123,6 +190,7 @@ type c36Bounds struct {
 	F2TS     []int64
 	F2Gaps   bool
 	QTsBound []int64 // query _ts bound values
+	F3       [][]int // layouts of family F3 (storage attributes per segment)
 }
 
 func c36QuickBounds() c36Bounds {
@@ -132,6 +200,7 @@ func c36QuickBounds() c36Bounds {
 		P1:       2,
 		F2TS:     []int64{20, 40},
 		QTsBound: []int64{30},
+		F3:       [][]int{{1}, {2}, {1, 1}, {2, 1}},
 	}
 }
 
@@ -144,6 +213,7 @@ func c36ThoroughBounds() c36Bounds {
 		F2TS:     []int64{20, 40},
 		F2Gaps:   true,
 		QTsBound: []int64{20, 40},
+		F3:       [][]int{{1}, {2}, {1, 1}, {2, 1}, {1, 2}, {1, 1, 1}},
 	}
 }
 
@@ -220,6 +290,42 @@ func c36Sets(b c36Bounds, f func(i int, set c36Set) bool) int {
 		return n
 	}
 	for _, large := range []bool{false, true} {
+		if large {
+			// family F3: complete segments of partition 0; per segment {time-index sidecar present, absent} x
+			// LastModified {absent, earlier than every lower time bound, later than everything}; record
+			// timestamps (relative to T0) over the full product of {below, at, above the _ts bound}.
+			attrs := []struct {
+				noStats bool
+				lm      string
+			}{{false, "late"}, {true, "late"}, {false, "zero"}, {true, "zero"}, {false, "early"}, {true, "early"}}
+			for _, layout := range b.F3 {
+				n := size(layout)
+				for ai := 0; ai < c36Pow(len(attrs), len(layout)); ai++ {
+					for tsIdx := 0; tsIdx < c36Pow(len(c36RelTS), n); tsIdx++ {
+						segs := c36P0(layout, 0, c36RelTS, tsIdx)
+						x := ai
+						desc := ""
+						for k := len(segs) - 1; k >= 0; k-- {
+							a := attrs[x%len(attrs)]
+							x /= len(attrs)
+							segs[k].NoStats, segs[k].LM = a.noStats, a.lm
+						}
+						for k := range segs {
+							st := "stats"
+							if segs[k].NoStats {
+								st = "nostats"
+							}
+							desc += fmt.Sprintf(" seg%d=%s/lm-%s", k, st, segs[k].LM)
+						}
+						set := c36Set{Segs: segs, Rel: true, Label: fmt.Sprintf("F3 layout=%v%s ts#%d(h)", layout, desc, tsIdx)}
+						if !f(i, set) {
+							return i
+						}
+						i++
+					}
+				}
+			}
+		}
 		var layouts [][]int
 		for _, l := range b.Layouts {
 			if (size(l) > 3) == large {
@@ -285,9 +391,77 @@ type c36Query struct {
 	N      int    `json:"n"`    // limit / tail count (0 = none)
 	Text   string `json:"text"`
 	Form   string `json:"form"` // natural | dialect
+	// family F3: time bounds in hours relative to T0 (negative; 0 = none) and LAST <n>h (0 = none). Text
+	// then carries placeholders like {T0-24h}; bind fills TsMin/TsMax (ms) and the executable text.
+	Rel   bool `json:"rel,omitempty"`
+	MinH  int  `json:"minh,omitempty"`
+	MaxH  int  `json:"maxh,omitempty"`
+	LastH int  `json:"lasth,omitempty"`
+	t0    int64
+	exec  string
 }
 
-func (q c36Query) clauses() (where []string, ts []string, order, lim string) {
+func c36RelName(h int) string { return fmt.Sprintf("{T0%+dh}", h) }
+
+// bind fixes the reference instant of a relative query.
+func (q c36Query) bind(t0 int64) c36Query {
+	if !q.Rel {
+		return q
+	}
+	q.t0 = t0
+	q.TsMin, q.TsMax = -1, -1
+	q.exec = q.Text
+	if q.MinH != 0 {
+		q.TsMin = t0 + int64(q.MinH)*c36HourMs
+		q.exec = strings.ReplaceAll(q.exec, c36RelName(q.MinH), strconv.FormatInt(q.TsMin, 10))
+	}
+	if q.MaxH != 0 {
+		q.TsMax = t0 + int64(q.MaxH)*c36HourMs
+		q.exec = strings.ReplaceAll(q.exec, c36RelName(q.MaxH), strconv.FormatInt(q.TsMax, 10))
+	}
+	return q
+}
+
+// sql is the text sent to the server.
+func (q c36Query) sql() string {
+	if q.exec != "" {
+		return q.exec
+	}
+	return q.Text
+}
+
+// effBounds is the time interval the query selects: the _ts bounds and, with LAST <n>h, [now-n h, now]
+// evaluated at the reference instant T0 (the generator keeps every record timestamp, statistic and
+// LastModified at least 6 h away from both ends, so that the instant at which the server reads its
+// clock during the run does not matter).
+func (q c36Query) effBounds() (min, max *int64) {
+	if q.TsMin >= 0 {
+		v := q.TsMin
+		min = &v
+	}
+	if q.TsMax >= 0 {
+		v := q.TsMax
+		max = &v
+	}
+	if q.LastH > 0 {
+		start := q.t0 - int64(q.LastH)*c36HourMs
+		if min == nil || *min < start {
+			min = &start
+		}
+		if max == nil {
+			now := q.t0
+			max = &now
+		}
+	}
+	return
+}
+
+func (q c36Query) tsOK(ts int64) bool {
+	min, max := q.effBounds()
+	return (min == nil || ts >= *min) && (max == nil || ts <= *max)
+}
+
+func (q c36Query) clauses() (where []string, ts []string, order, lim, last string) {
 	if q.Part >= 0 {
 		where = append(where, fmt.Sprintf("_partition = %d", q.Part))
 	}
@@ -297,11 +471,23 @@ func (q c36Query) clauses() (where []string, ts []string, order, lim string) {
 	if q.OffMax >= 0 {
 		where = append(where, fmt.Sprintf("_offset <= %d", q.OffMax))
 	}
-	if q.TsMin >= 0 {
-		ts = append(ts, fmt.Sprintf("_ts >= %d", q.TsMin))
-	}
-	if q.TsMax >= 0 {
-		ts = append(ts, fmt.Sprintf("_ts <= %d", q.TsMax))
+	if q.Rel {
+		if q.MinH != 0 {
+			ts = append(ts, "_ts >= "+c36RelName(q.MinH))
+		}
+		if q.MaxH != 0 {
+			ts = append(ts, "_ts <= "+c36RelName(q.MaxH))
+		}
+		if q.LastH > 0 {
+			last = fmt.Sprintf("LAST %dh", q.LastH)
+		}
+	} else {
+		if q.TsMin >= 0 {
+			ts = append(ts, fmt.Sprintf("_ts >= %d", q.TsMin))
+		}
+		if q.TsMax >= 0 {
+			ts = append(ts, fmt.Sprintf("_ts <= %d", q.TsMax))
+		}
 	}
 	switch q.Mode {
 	case "asc":
@@ -318,9 +504,9 @@ func (q c36Query) clauses() (where []string, ts []string, order, lim string) {
 	return
 }
 
-// natural: SELECT * FROM t WHERE <all filters joined by AND> ORDER BY .. LIMIT n
+// natural: SELECT * FROM t WHERE <all filters joined by AND> ORDER BY .. LIMIT n LAST <n>h
 func (q c36Query) natural() string {
-	where, ts, order, lim := q.clauses()
+	where, ts, order, lim, last := q.clauses()
 	parts := []string{"SELECT * FROM " + c36Topic}
 	if all := append(append([]string{}, where...), ts...); len(all) > 0 {
 		parts = append(parts, "WHERE "+strings.Join(all, " AND "))
@@ -331,13 +517,16 @@ func (q c36Query) natural() string {
 	if lim != "" {
 		parts = append(parts, lim)
 	}
+	if last != "" {
+		parts = append(parts, last)
+	}
 	return strings.Join(parts, " ")
 }
 
 // dialect: the arrangement the parser accepts for every combination: ORDER BY before WHERE, the
-// _ts bounds after a clause-terminating keyword (SCAN FULL / LIMIT / TAIL).
+// _ts bounds after a clause-terminating keyword (SCAN FULL / LIMIT / TAIL / LAST).
 func (q c36Query) dialect() string {
-	where, ts, order, lim := q.clauses()
+	where, ts, order, lim, last := q.clauses()
 	parts := []string{"SELECT * FROM " + c36Topic}
 	if order != "" {
 		parts = append(parts, order)
@@ -345,9 +534,14 @@ func (q c36Query) dialect() string {
 	if len(where) > 0 {
 		parts = append(parts, "WHERE "+strings.Join(where, " AND "))
 	}
-	parts = append(parts, "SCAN FULL")
+	if last == "" {
+		parts = append(parts, "SCAN FULL")
+	}
 	if lim != "" {
 		parts = append(parts, lim)
+	}
+	if last != "" {
+		parts = append(parts, last)
 	}
 	parts = append(parts, ts...)
 	return strings.Join(parts, " ")
@@ -361,9 +555,13 @@ func c36Intent(q c36Query, text string) (accepted bool, same bool, err error) {
 	}
 	eqI32 := func(p *int32, v int) bool { return (p == nil && v < 0) || (p != nil && v >= 0 && int(*p) == v) }
 	eqI64 := func(p *int64, v int64) bool { return (p == nil && v < 0) || (p != nil && v >= 0 && *p == v) }
+	wantLast := ""
+	if q.LastH > 0 {
+		wantLast = fmt.Sprintf("%dh", q.LastH)
+	}
 	same = p.Type == kafsql.QuerySelect && p.Topic == c36Topic && p.JoinTopic == "" &&
 		eqI32(p.Partition, q.Part) && eqI64(p.OffsetMin, q.OffMin) && eqI64(p.OffsetMax, q.OffMax) &&
-		eqI64(p.TsMin, q.TsMin) && eqI64(p.TsMax, q.TsMax) && p.Last == "" && p.TimeWindow == "" && len(p.GroupBy) == 0 &&
+		eqI64(p.TsMin, q.TsMin) && eqI64(p.TsMax, q.TsMax) && p.Last == wantLast && p.TimeWindow == "" && len(p.GroupBy) == 0 &&
 		len(p.Select) == 1 && p.Select[0].Kind == kafsql.SelectColumnStar
 	wantOrder, wantDesc := "", false
 	switch q.Mode {
@@ -383,6 +581,13 @@ func c36Intent(q c36Query, text string) (accepted bool, same bool, err error) {
 	return true, same, nil
 }
 
+type c36Mode struct {
+	m string
+	n int
+}
+
+var c36Modes = []c36Mode{{"all", 0}, {"all", 1}, {"all", 2}, {"tail", 1}, {"tail", 2}, {"asc", 0}, {"desc", 0}, {"asc", 2}, {"desc", 1}}
+
 type c36QueryStats struct {
 	Combos          int
 	NaturalAccepted int
@@ -396,13 +601,8 @@ func c36Queries(b c36Bounds) ([]c36Query, c36QueryStats, error) {
 	offMins := []int64{-1, 1, 3}
 	offMaxs := []int64{-1, 0, 2}
 	tsB := append([]int64{-1}, b.QTsBound...)
-	type mode struct {
-		m string
-		n int
-	}
-	modes := []mode{{"all", 0}, {"all", 1}, {"all", 2}, {"tail", 1}, {"tail", 2}, {"asc", 0}, {"desc", 0}, {"asc", 2}, {"desc", 1}}
 	var out []c36Query
-	for _, md := range modes {
+	for _, md := range c36Modes {
 		for _, part := range []int{-1, 0, 1} {
 			for _, omin := range offMins {
 				for _, omax := range offMaxs {
@@ -449,13 +649,49 @@ func (q c36Query) match(r c36Row) bool {
 	if q.OffMax >= 0 && r.Off > q.OffMax {
 		return false
 	}
-	if q.TsMin >= 0 && r.TS < q.TsMin {
-		return false
+	return q.tsOK(r.TS)
+}
+
+// c36QueriesRel builds the queries of family F3 (all carry a lower time bound): {_ts >= B, _ts >= B
+// and _ts <= B, LAST 18h, LAST 30h} x {no filter, _partition = 0, _offset >= 1, _offset <= 0} x the
+// nine result modes; text form chosen as in c36Queries. The result is bound to t0.
+func c36QueriesRel(t0 int64) ([]c36Query, c36QueryStats, error) {
+	st := c36QueryStats{NaturalRejected: map[string]int{}}
+	type tf struct{ minH, maxH, lastH int }
+	forms := []tf{{c36RelBound, 0, 0}, {c36RelBound, c36RelBound, 0}}
+	for _, w := range c36RelLast {
+		forms = append(forms, tf{0, 0, w})
 	}
-	if q.TsMax >= 0 && r.TS > q.TsMax {
-		return false
+	type flt struct {
+		part       int
+		omin, omax int64
 	}
-	return true
+	filters := []flt{{-1, -1, -1}, {0, -1, -1}, {-1, 1, -1}, {-1, -1, 0}}
+	var out []c36Query
+	for _, md := range c36Modes {
+		for _, fl := range filters {
+			for _, f := range forms {
+				q := c36Query{Part: fl.part, OffMin: fl.omin, OffMax: fl.omax, TsMin: -1, TsMax: -1, Mode: md.m, N: md.n, Rel: true, MinH: f.minH, MaxH: f.maxH, LastH: f.lastH}
+				st.Combos++
+				q.Text, q.Form = q.natural(), "natural"
+				b := q.bind(t0)
+				acc, _, err := c36Intent(b, b.sql())
+				if acc {
+					st.NaturalAccepted++
+				} else {
+					st.NaturalRejected[err.Error()]++
+					q.Text, q.Form = q.dialect(), "dialect"
+					b = q.bind(t0)
+					acc, same, err := c36Intent(b, b.sql())
+					if !acc || !same {
+						return nil, st, fmt.Errorf("the parser does not read %q as intended (accepted=%v same=%v err=%v)", b.sql(), acc, same, err)
+					}
+				}
+				out = append(out, b)
+			}
+		}
+	}
+	return out, st, nil
 }
 
 // ---------- memoising wrappers around the real lister / decoder ----------
@@ -723,7 +959,7 @@ func c36Check(q c36Query, truth []c36Row, ans c36Answer, segs []discovery.Segmen
 				why = "partition"
 			case (q.OffMin >= 0 && tr.Off < q.OffMin) || (q.OffMax >= 0 && tr.Off > q.OffMax):
 				why = "offset"
-			case (q.TsMin >= 0 && tr.TS < q.TsMin) || (q.TsMax >= 0 && tr.TS > q.TsMax):
+			case !q.tsOK(tr.TS):
 				why = "ts"
 			}
 			return "extra:" + why, &c36Finding{Key: "row-outside-filter-returned:" + why, Detail: fmt.Sprintf("%q returned partition %d offset %d ts %d which does not satisfy the %s filter", q.Text, tr.P, tr.Off, tr.TS, why)}
@@ -835,7 +1071,17 @@ func c36Diagnose(q c36Query, r c36Row, segs []discovery.SegmentRef) (string, str
 	if !segmentMatchesOffsets(*seg, ptr(q.OffMin), ptr(q.OffMax)) {
 		return "segment-skipped-by-offset-stats", stats
 	}
-	if !segmentMatchesTimestamps(*seg, ptr(q.TsMin), ptr(q.TsMax)) {
+	if tmin, tmax := q.effBounds(); !segmentMatchesTimestamps(*seg, tmin, tmax) {
+		if seg.MinTimestamp == nil && seg.MaxTimestamp == nil {
+			lm := "zero"
+			if !seg.LastModified.IsZero() {
+				lm = seg.LastModified.UTC().Format(time.RFC3339Nano)
+				if q.Rel {
+					lm = fmt.Sprintf("T0%+.0fh", float64(seg.LastModified.UnixMilli()-q.t0)/float64(c36HourMs))
+				}
+			}
+			return "segment-without-time-stats-skipped-by-time-filter", stats + " LastModified " + lm
+		}
 		return "segment-skipped-by-time-stats", stats
 	}
 	return "matching-row-dropped-after-decoding", stats + " (the segment passes the statistics filter)"
@@ -867,6 +1113,7 @@ func (e *c36Env) prepare(set c36Set, v string) error {
 		if err := e.tiBuild.Build(ctx); err != nil {
 			return fmt.Errorf("time index build: %w", err)
 		}
+		e.dropSidecars(set)
 	case "manifest":
 		if err := e.mfRaw.Build(ctx); err != nil {
 			return fmt.Errorf("manifest build: %w", err)
@@ -882,11 +1129,44 @@ func (e *c36Env) prepare(set c36Set, v string) error {
 		if err := e.tiBuild.Build(ctx); err != nil {
 			return fmt.Errorf("time index build: %w", err)
 		}
+		e.dropSidecars(set)
 		if err := e.mfTI.Build(ctx); err != nil {
 			return fmt.Errorf("manifest build: %w", err)
 		}
 	}
 	return nil
+}
+
+// dropSidecars removes the time-index sidecar of every segment marked NoStats: the bucket then looks
+// as if the TimeIndexBuilder had last run before those segments were completed.
+func (e *c36Env) dropSidecars(set c36Set) {
+	for _, sg := range set.Segs {
+		if sg.NoStats {
+			e.s3.Delete(strings.TrimSuffix(sg.segKey(), ".kfs") + ".kfst")
+		}
+	}
+}
+
+// c36VariantsFor: F1/F2 sets run in every variant of the tier. F3 sets run with sidecars (time-index)
+// and with a manifest built over the sidecars; if no segment of the set has a sidecar, also plain and
+// with the plain manifest (the manifest passes LastModified on as a string).
+func c36VariantsFor(set c36Set) []string {
+	if !set.Rel {
+		return c36Variants
+	}
+	if set.allNoStats() {
+		return []string{"plain", "time-index", "manifest", "manifest-with-time-stats"}
+	}
+	return []string{"time-index", "manifest-with-time-stats"}
+}
+
+func c36VariantRank(v string) int {
+	for i, x := range c36AllVariants {
+		if x == v {
+			return i
+		}
+	}
+	return len(c36AllVariants)
 }
 
 func c36ProbeIdx(queries []c36Query) []int {
@@ -905,14 +1185,16 @@ func c36ProbeIdx(queries []c36Query) []int {
 func TestVerifC36(t *testing.T) {
 	rep := vh.New(t, "C36")
 	defer rep.Finish()
-	rep.Rule = "case = (segment set, storage variant, query). Segment sets: partition 0 = every layout (records per segment) x inter-segment offset gaps x every assignment of the timestamp alphabet to its records, plus partition-1 variants (family F1); the same layouts with one segment not completed (no index object / no footer magic) (family F2). Variants: plain | time-index sidecars | manifest | manifest+time-index (as cmd/backfill builds them) | manifest carrying time statistics; sidecars and manifests are written by the real builders. Queries: product of partition filter x _offset >= x _offset <= x _ts >= x _ts <= x {all, limit 1, limit 2, tail 1, tail 2, order by _ts, order by _ts desc, order by _ts limit 2, order by _ts desc limit 1}, in natural SQL where the parser accepts it, else in the clause order it accepts. Outcome signature = variant + mode + (matching rows, returned rows) buckets + which statistics the pruned segments had. Non-trivial = at least one segment of the topic was pruned by statistics or at least one decoded record was filtered out."
+	rep.Rule = "case = (segment set, storage variant, query). Segment sets: partition 0 = every layout (records per segment) x inter-segment offset gaps x every assignment of the timestamp alphabet to its records, plus partition-1 variants (family F1); the same layouts with one segment not completed (no index object / no footer magic) (family F2). Family F3 (storage attributes): partition 0 = layouts of <=2 segments x every assignment of {T0-36h, T0-24h, T0-12h} to the records x per segment {time-index sidecar present, absent} x listing LastModified {T0-1h, absent (zero), T0-72h}; its queries all carry a lower time bound: {_ts >= T0-24h, _ts >= T0-24h and _ts <= T0-24h, LAST 18h, LAST 30h} x {no filter, _partition = 0, _offset >= 1, _offset <= 0} x the nine result modes; variants time-index and manifest-with-time-stats, plus plain and manifest when no segment has a sidecar. Variants: plain | time-index sidecars | manifest | manifest+time-index (as cmd/backfill builds them) | manifest carrying time statistics; sidecars and manifests are written by the real builders. Queries of F1/F2: product of partition filter x _offset >= x _offset <= x _ts >= x _ts <= x {all, limit 1, limit 2, tail 1, tail 2, order by _ts, order by _ts desc, order by _ts limit 2, order by _ts desc limit 1}, in natural SQL where the parser accepts it, else in the clause order it accepts. Outcome signature = variant + mode + (matching rows, returned rows) buckets + which statistics the pruned segments had. Non-trivial = at least one segment of the topic was pruned by statistics or at least one decoded record was filtered out."
 	rep.Assumptions = []string{
 		"segments are well formed: the file name carries the offset of the first record, offsets grow within and across the segments of a partition (gaps allowed), timestamps are arbitrary",
 		"a segment is completed iff its .kfs ends in the footer magic and its .index object exists; records of other segments are not part of the topic's rows",
 		"LIMIT n without ORDER BY: any n distinct matching rows; TAIL n: n distinct matching rows such that no excluded row has a higher offset than an included row of the same partition; ORDER BY _ts [LIMIT n]: sorted, and no excluded row strictly before an included one (ties are unordered)",
-		"LIMIT 0, inverted time windows, TAIL with ORDER BY and LAST (wall clock) are excluded; all caches are off (TTL 0)",
+		"LIMIT 0, inverted time windows and TAIL with ORDER BY are excluded; all caches are off (TTL 0)",
+		"LAST <n>h (family F3 only) selects the records with now-n h <= _ts <= now; every generated timestamp, statistic and LastModified is at least 6 h away from both ends (relative to the instant T0 at which the run started) and the run aborts as HARNESS-ERROR if it lasts more than 1 h, so the verdict does not depend on when the server reads its clock",
+		"LastModified of a segment object is unrelated to the timestamps of its records (producer-assigned): a listing may report it earlier than, later than, or not at all relative to any record timestamp",
 		"a query text the parser rejects is not a violation of this property (counted in bounds.natural_sql_rejected)",
-		"sidecars/manifest are built after the last segment was written (no stale manifest)",
+		"the manifest is built after the last segment was written (no stale manifest); time-index sidecars may be missing for any subset of the segments (family F3)",
 	}
 	t.Setenv("AWS_ACCESS_KEY_ID", "verif")
 	t.Setenv("AWS_SECRET_ACCESS_KEY", "verif")
@@ -934,7 +1216,10 @@ func TestVerifC36(t *testing.T) {
 		if err != nil {
 			t.Fatalf("HARNESS-ERROR %v", err)
 		}
-		if err := env.prepare(replay.Set, replay.Variant); err != nil {
+		t0 := time.Now().UTC().Truncate(time.Second).UnixMilli()
+		bset := replay.Set.bind(t0)
+		bq := replay.Query.bind(t0)
+		if err := env.prepare(bset, replay.Variant); err != nil {
 			t.Fatalf("HARNESS-ERROR %v", err)
 		}
 		srv := env.memoSrv[replay.Variant]
@@ -942,12 +1227,12 @@ func TestVerifC36(t *testing.T) {
 			srv = env.realSrv[replay.Variant]
 		}
 		env.resetMemo(replay.Variant)
-		ans, err := c36Exec(srv, replay.Query.Text)
+		ans, err := c36Exec(srv, bq.sql())
 		if err != nil {
 			t.Fatalf("HARNESS-ERROR %v", err)
 		}
 		segs, _ := env.listers[replay.Variant].ListCompleted(context.Background())
-		sig, f := c36Check(replay.Query, c36Truth(replay.Set), ans, segs)
+		sig, f := c36Check(bq, c36Truth(bset), ans, segs)
 		rep.Eval(1)
 		rep.Outcome(sig, true)
 		rep.Outcome("replay", true)
@@ -962,8 +1247,32 @@ func TestVerifC36(t *testing.T) {
 		t.Fatalf("HARNESS-ERROR %v", err)
 	}
 	probes := c36ProbeIdx(queries)
+	// reference instant of family F3; the run must end well within the 6 h margins around it
+	wallStart := time.Now()
+	t0 := wallStart.UTC().Truncate(time.Second).UnixMilli()
+	relQueries, relStats, err := c36QueriesRel(t0)
+	if err != nil {
+		t.Fatalf("HARNESS-ERROR %v", err)
+	}
+	relProbes := c36ProbeIdx(relQueries)
 	nsets := c36Sets(bounds, func(int, c36Set) bool { return true })
+	nrel := 0
+	c36Sets(bounds, func(_ int, s c36Set) bool {
+		if s.Rel {
+			nrel++
+		}
+		return true
+	})
 	rep.SetInfo("segment_sets", nsets)
+	rep.SetInfo("segment_sets_f3_storage_attributes", nrel)
+	rep.SetInfo("f3_layouts_partition0", bounds.F3)
+	rep.SetInfo("f3_per_segment_attributes", "{sidecar present, absent} x LastModified {late=T0-1h, zero=absent from the listing, early=T0-72h}")
+	rep.SetInfo("f3_record_timestamps_hours_from_T0", c36RelTS)
+	rep.SetInfo("f3_time_forms", fmt.Sprintf("_ts >= T0%+dh | _ts >= T0%+dh AND _ts <= T0%+dh | LAST %dh | LAST %dh", c36RelBound, c36RelBound, c36RelBound, c36RelLast[0], c36RelLast[1]))
+	rep.SetInfo("f3_queries_per_set_and_variant", len(relQueries))
+	rep.SetInfo("f3_probe_queries_through_uninstrumented_server", len(relProbes))
+	rep.SetInfo("f3_natural_sql_accepted", relStats.NaturalAccepted)
+	rep.SetInfo("f3_natural_sql_rejected", relStats.NaturalRejected)
 	rep.SetInfo("variants", c36Variants)
 	rep.SetInfo("queries_per_set_and_variant", len(queries))
 	rep.SetInfo("probe_queries_through_uninstrumented_server", len(probes))
@@ -1023,10 +1332,15 @@ func TestVerifC36(t *testing.T) {
 					mu.Unlock()
 					continue
 				}
-				set := sets[si]
+				set := sets[si].bind(t0)
 				truth := c36Truth(set)
+				queries, probes := queries, probes
+				if sets[si].Rel {
+					queries, probes = relQueries, relProbes
+				}
 				var evals int64
-				for vi, v := range c36Variants {
+				for _, v := range c36VariantsFor(sets[si]) {
+					vi := c36VariantRank(v)
 					if err := env.prepare(set, v); err != nil {
 						mu.Lock()
 						firstErr = fmt.Errorf("set %d (%s) variant %s: %w", si, set.Label, v, err)
@@ -1042,9 +1356,24 @@ func TestVerifC36(t *testing.T) {
 						return
 					}
 					statKinds := c36StatKinds(segs)
+					if sets[si].Rel {
+						// which LastModified the lister reported for segments without time statistics
+						for _, sg := range segs {
+							if sg.Topic == c36Topic && sg.MinTimestamp == nil && sg.MaxTimestamp == nil {
+								switch {
+								case sg.LastModified.IsZero():
+									statKinds += "-lmzero"
+								case sg.LastModified.UnixMilli() < t0+c36RelBound*c36HourMs:
+									statKinds += "-lmearly"
+								default:
+									statKinds += "-lmlate"
+								}
+							}
+						}
+					}
 					run := func(path string, srv *Server, qi int) bool {
 						q := queries[qi]
-						ans, err := c36Exec(srv, q.Text)
+						ans, err := c36Exec(srv, q.sql())
 						if err != nil {
 							mu.Lock()
 							firstErr = err
@@ -1055,6 +1384,9 @@ func TestVerifC36(t *testing.T) {
 						evals++
 						nontrivial := c36Nontrivial(q, truth, segs)
 						full := v + "/" + path + "/" + q.Form + "/" + statKinds + "/" + sig
+						if q.Rel {
+							full += fmt.Sprintf("/min%d-max%d-last%d", q.MinH, q.MaxH, q.LastH)
+						}
 						if !localSigs[full] {
 							localSigs[full] = true
 							rep.Outcome(full, nontrivial)
@@ -1065,11 +1397,11 @@ func TestVerifC36(t *testing.T) {
 							cur, ok := best[f.Key]
 							rank := [2]int{si, vi*1000000 + qi}
 							if !ok || rank[0] < cur.rank[0] || (rank[0] == cur.rank[0] && rank[1] < cur.rank[1]) {
-								best[f.Key] = c36Found{rank: rank, f: *f, replay: c36Replay{Set: set, Variant: v, Path: path, Query: q}}
+								best[f.Key] = c36Found{rank: rank, f: *f, replay: c36Replay{Set: sets[si], Variant: v, Path: path, Query: q}}
 							}
 							mu.Unlock()
 						} else if si%97 == 3 && qi%311 == 5 && rep.WantSample() {
-							rep.Sample(map[string]any{"set": set, "variant": v, "query": q.Text, "rows": len(ans.Rows), "outcome": sig})
+							rep.Sample(map[string]any{"set": sets[si], "variant": v, "query": q.Text, "rows": len(ans.Rows), "outcome": sig})
 						}
 						return true
 					}
@@ -1083,6 +1415,12 @@ func TestVerifC36(t *testing.T) {
 							return
 						}
 					}
+				}
+				if sets[si].Rel && time.Since(wallStart) > time.Hour {
+					mu.Lock()
+					firstErr = fmt.Errorf("the run lasted more than 1 h: the LAST windows of family F3 are only judged within 1 h of the reference instant")
+					mu.Unlock()
+					return
 				}
 				rep.Eval(evals)
 				rep.Count("segment_sets_done", 1)
@@ -1145,7 +1483,8 @@ func c36Nontrivial(q c36Query, truth []c36Row, segs []discovery.SegmentRef) bool
 		if q.Part >= 0 && int(s.Partition) != q.Part {
 			return true
 		}
-		if !segmentMatchesOffsets(s, ptr(q.OffMin), ptr(q.OffMax)) || !segmentMatchesTimestamps(s, ptr(q.TsMin), ptr(q.TsMax)) {
+		tmin, tmax := q.effBounds()
+		if !segmentMatchesOffsets(s, ptr(q.OffMin), ptr(q.OffMax)) || !segmentMatchesTimestamps(s, tmin, tmax) {
 			return true
 		}
 	}
